@@ -922,6 +922,10 @@ func sliceCases(rd *hx.Rand, r rng) {
 			v := int64(0)
 			return &v
 		}
+		if rd.Intn(8) == 0 { // operands beyond 32 bits are truncated to the bounds
+			v := hx.Pick(rd, []int64{math.MaxInt32 + 1, math.MinInt32 - 1, 1 << 40, -(1 << 40), math.MaxInt64, math.MinInt64})
+			return &v
+		}
 		v := int64(rd.Intn(7) - 3)
 		return &v
 	}
@@ -936,6 +940,10 @@ func sliceCases(rd *hx.Rand, r rng) {
 		}
 		if k == 1 {
 			v := int64(math.MinInt32)
+			st = &v
+		}
+		if st != nil && *st == math.MinInt64 {
+			v := int64(math.MinInt64 + 1) // keep -step representable in the oracle below
 			st = &v
 		}
 		first, step, cnt := sliceIdx(nn, lo, hi, st)
@@ -1001,10 +1009,10 @@ func repeatCases(n *big.Int) {
 	}
 	big_ := n.Cmp(big.NewInt(1<<20)) > 0
 	if !big_ {
-		// a count that does not fit in 32 bits may be rejected even when negative
-		emit("repeat", "len('abc' * a0)", w, !inI32(n), mkInt(n))
-		emit("repeat", "len(a0 * [1, 2, 3])", w, !inI32(n), mkInt(n))
-		emit("repeat", "len((1, 2, 3) * a0)", w, !inI32(n), mkInt(n))
+		// negative counts of any magnitude behave like zero
+		emit("repeat", "len('abc' * a0)", w, false, mkInt(n))
+		emit("repeat", "len(a0 * [1, 2, 3])", w, false, mkInt(n))
+		emit("repeat", "len((1, 2, 3) * a0)", w, false, mkInt(n))
 	} else {
 		emit("repeat_big", "len('abc' * a0)", "err", false, mkInt(n))
 		emit("repeat_big", "len(a0 * [1, 2, 3])", "err", false, mkInt(n))
